@@ -857,6 +857,53 @@ def c15_batch(case):
             pass
     return ok()
 
+
+# ---------------------------------------------------------------------------
+# C06
+
+
+def c06_strict(case):
+    smi = case["smiles"]
+    reset_table()
+    try:
+        base = ("ok", sf.encoder(smi, strict=False))
+    except sf.EncoderError:
+        base = ("EncoderError",)
+    if not set_table(case["table"]):
+        return ok("table rejected")
+    try:
+        tab = sf.get_semantic_constraints()
+        try:
+            r0 = ("ok", sf.encoder(smi, strict=False))
+        except sf.EncoderError:
+            r0 = ("EncoderError",)
+        if r0 != base:
+            return bad("C06:nonstrict-depends-on-table", "encoder(%r, strict=False) -> %s under the default table but %s under %s" % (smi, base, r0, _short(case["table"])))
+        try:
+            r1 = ("ok", sf.encoder(smi, strict=True))
+        except sf.EncoderError as ex:
+            r1 = ("EncoderError", str(ex))
+        if r0[0] != "ok":
+            if r1[0] == "ok":
+                return bad("C06:strict-accepts-unparseable", "encoder(%r) fails with strict=False but succeeds with strict=True" % smi)
+            return ok()
+        if r1[0] == "ok" and r1[1] != r0[1]:
+            return bad("C06:strict-changes-output", "encoder(%r): strict=True gives %r, strict=False gives %r" % (smi, r1[1], r0[1]))
+        mol = oread.read_smiles(smi)
+        if mol.faults or any(a.aromatic for a in mol.atoms) or any(b.order == 1.5 for b in mol.bonds.values()):
+            return ok("aromatic / unreadable: iff not judged")
+        over = [(i, a.text, oread.explicit_valence(mol, i), oread.capacity(tab, a)) for i, a in enumerate(mol.atoms)
+                if oread.explicit_valence(mol, i) > oread.capacity(tab, a)]
+        if over and r1[0] == "ok":
+            return bad("C06:strict-accepts-violation", "encoder(%r, strict=True) under %s succeeds although atom %s has %s bonds+H > capacity %s"
+                       % (smi, _short(case["table"]), over[0][1], over[0][2], over[0][3]))
+        if not over and r1[0] != "ok":
+            return bad("C06:strict-rejects-valid", "encoder(%r, strict=True) under %s raises although no atom exceeds its capacity: %s"
+                       % (smi, _short(case["table"]), r1[1][-160:]))
+        return ok()
+    finally:
+        reset_table()
+
 # ---------------------------------------------------------------------------
 
 KINDS = {
@@ -878,6 +925,7 @@ KINDS = {
     "enc_wellformed": c14_enc,
     "encoding": c15_encoding,
     "batch_encoding": c15_batch,
+    "strict": c06_strict,
     "state_fn": lemma_state_fn,
     "ring_step": lemma_ring_step,
 }
